@@ -275,10 +275,9 @@ pub fn run(thorough: bool) -> Report {
                     let x: f64 = args[a].parse().unwrap();
                     let problem: Option<String> = match (&r, x) {
                         (CallResult::Panic(p), _) => Some(format!("panic {}", short_panic(p))),
-                        (CallResult::Err(k, _), x) if x < 0.0 => {
-                            if k != "Unimplemented" {
-                                Some(format!("negative argument gave error {}", k))
-                            } else if after % LCG_M != before % LCG_M {
+                        (CallResult::Err(_, _), x) if x < 0.0 => {
+                            // (which error it is reported as is not the property's business)
+                            if after % LCG_M != before % LCG_M {
                                 Some("negative argument advanced the generator".into())
                             } else {
                                 None
